@@ -82,7 +82,22 @@ class MatchEnd(Contract):
         return [('end', eq(v.result, re_match_end(v.old.m)))]
 
 
+class ReCompileFn(Contract):
+    """re.compile(pattern, flags): the compiled pattern is a function of (text, string type, flags).  Assumed: the
+    pattern is a valid regular expression (re.error is not modelled)."""
+    params = ['pattern', 'flags']
+    defaults = {'flags': 0}
+
+    def outcomes(self, v):
+        def mk(interp, pre):
+            from pyvc.values import VAny
+            p = pre.args_v['pattern']
+            return VAny(re_compile(p.t, p.kind == 'b', pre.a.flags), notnone=True, kindtag='regex')
+        return [Ret(T.Any, make=mk)]
+
+
 def register_re(reg):
+    reg.add_extern('re.compile', ReCompileFn)
     reg.add_extern('opaque.search', ReSearch)
     reg.add_extern('opaque.start', MatchStart)
     reg.add_extern('opaque.end', MatchEnd)
